@@ -540,7 +540,14 @@ def waste_provenance(index, rep):
     assigns = {}
     from .core import unrolled_assigns
     from .symx import Interp as _I
-    for n in unrolled_assigns(mod, _I.global_literals):
+    # (written in parameters.py, or by a food-system class that fills the table it is handed)
+    food_files_ = ["src/food_system/" + f for f in ("stored_food.py", "outdoor_crops.py", "meat_and_dairy.py", "methane_scp.py", "cellulosic_sugar.py",
+                                                    "seaweed.py")]
+    all_assigns = list(unrolled_assigns(mod, _I.global_literals))
+    for rel_ in food_files_:
+        all_assigns += [a_ for a_ in unrolled_assigns(index.module(rel_), _I.global_literals)
+                        if isinstance(a_.targets[0], ast.Subscript) and isinstance(a_.targets[0].value, ast.Name)]
+    for n in all_assigns:
         if isinstance(n, ast.Assign) and len(n.targets) == 1 and isinstance(n.targets[0], ast.Subscript):
             t = n.targets[0]
             k = t.slice.value if isinstance(t.slice, ast.Constant) else None
